@@ -48,6 +48,22 @@ def check_for_valid_timetamp_syntax(timestamp_string):
     return _TIMESTAMP_RE.match(timestamp_string)
 
 
+def append_operand(expression, operand):
+    """
+    Add a further operand to a boolean expression of the same operator, keeping
+    the expression's set of possible object types in step (as its constructor
+    does for the operands it is given).
+    """
+    expression.operands.append(operand)
+    if expression.operator == "AND":
+        expression.root_types = expression.root_types & operand.root_types
+        if not expression.root_types:
+            raise ValueError("All operands to an 'AND' expression must be satisfiable with the same object type")
+    else:
+        expression.root_types = expression.root_types | operand.root_types
+    return expression
+
+
 def same_boolean_operator(current_op, op_token):
     return current_op == op_token.getText()
 
@@ -144,8 +160,7 @@ class STIXPatternVisitorForSTIX2():
             return children[0]
         else:
             if isinstance(children[0], _BooleanExpression) and same_boolean_operator(children[0].operator, children[1]):
-                children[0].operands.append(children[2])
-                return children[0]
+                return append_operand(children[0], children[2])
             else:
                 return self.instantiate("OrBooleanExpression", [children[0], children[2]])
 
@@ -157,8 +172,7 @@ class STIXPatternVisitorForSTIX2():
             return children[0]
         else:
             if isinstance(children[0], _BooleanExpression):
-                children[0].operands.append(children[2])
-                return children[0]
+                return append_operand(children[0], children[2])
             else:
                 return self.instantiate("AndBooleanExpression", [children[0], children[2]])
 
